@@ -7,7 +7,7 @@ from mbh import plans
 ALL = ["C%02d" % i for i in range(1, 21)]
 TEXT = {
  "C01": "open replays exactly the accepted, not yet discarded messages (bag equality with the observer's own record of accepted adds; stored messages = accepted messages). Known finding F10 (non-string phase/body/id replayed as strings).",
- "C02": "every accepted add is sent exactly once, unmodified and with the binder's side, to exactly the connections that are subscribed by the protocol's definition; message frames only on add/open",
+ "C02": "every accepted add is sent exactly once, unmodified and with the binder's side, to exactly the connections that are subscribed by the protocol's definition; message frames only on add/open; also when another subscriber is in its closing handshake and the send to it fails (fixed finding F11)",
  "C03": "claimed answers name the live nameplate's mailbox, it never changes while the nameplate lives, new incarnations get never-used ids, no sharing, (app,name) is a key; plus the two ends of an incarnation: C07.a (it ends only by the causes C07 lists) and C07.e (after the last acknowledged release the name is free, also when the release had to be re-sent after a kill)",
  "C04": "allocated names are free, of the shortest class that has a free value (real class bounds 1-9/10-99/100-999/longer), held by the allocating side in the durable state reached when the answer is sent; listing allowed and disallowed; a quick history with all 999 short names in use",
  "C05": "per mailbox / nameplate incarnation at most two sides are ever subscribed, sent messages or told the id; refused third sides change no stored message; keep-access clause = known finding F6",
@@ -22,7 +22,7 @@ TEXT = {
  "C14": "pairs (TracePair regime resend; MBPair regime resend): an acknowledged claim/release/open/close duplicated on a fresh connection of the same side is answered like the original and changes neither later frames nor channel rows. Known finding F6.",
  "C15": "per retirement exactly one usage record with started/waiting/total derived from the observer's own record of arrivals and the documented precedence; status row = number of subscribed connections; plus the whole finite domain of the real summary functions (Classify.tla)",
  "C16": "every new usage timestamp is a multiple of the blur interval and within one interval below the true time, on every path (release, close, mailbox deletion, expiry, bind), for intervals in minutes, in seconds not dividing a minute, and with 1/100 s arrival times; plus Classify.tla",
- "C17": "welcome first with the configured notices; ack first echoing id; well-formed frames; ping/pong; each listed protocol error = exactly one error frame, no stored change; the connection stays usable afterwards (C17.g); no internal failure (known findings F2, F10 apart); awkward Unicode / empty strings for every identifier",
+ "C17": "welcome first with the configured notices; ack first echoing id; well-formed frames; ping/pong; each listed protocol error = exactly one error frame, no stored change; the connection stays usable afterwards (C17.g); no internal failure (known findings F2, F10 apart; fixed finding F11: a subscriber in its closing handshake during an add); awkward Unicode / empty strings for every identifier",
  "C18": "list answers exactly the live nameplates or nothing when disallowed; pairs (TracePair regime config; MBPairCfg): same history under other listing/usage/blur options gives equal frames (names payload apart), channel rows and allocate candidate sets",
 }
 FILES = {
